@@ -10,6 +10,7 @@ mod audit;
 mod pagesdrv;
 mod treedrv;
 mod tuple;
+mod valuesdrv;
 mod wal;
 mod wire;
 
@@ -22,6 +23,7 @@ fn main() {
     let rest = util::Args(args[1..].to_vec());
     let code = match args[0].as_str() {
         "wal" => wal::main(&rest),
+        "values" => valuesdrv::main(&rest),
         "tree" => treedrv::main(&rest),
         "pages" => pagesdrv::main(&rest),
         "tuple" => tuple::main(&rest),
